@@ -695,6 +695,15 @@ func (e *Exec) callByContract(ct *Contract, callee *ssa.Function, args []Val, si
 	}
 	// ghost variables the callee changes through its own callees take arbitrary new values (constrained by its ensures)
 	for _, g := range ct.Havocs {
+		if g == "clock" {
+			// the callee may take time: the ghost clock moves forward by an arbitrary amount
+			e.clock0()
+			oldc := e.heapGet("GH.clock", STime)
+			nc := e.vc.Fresh("GH.clock", STime)
+			e.vc.Assume(True, And(SGe(nc, oldc), App("time_ok", SBool, nc)))
+			e.st.heaps["GH.clock"] = nc
+			continue
+		}
 		if gv := e.P.Ghosts[g]; gv != nil {
 			hn := "GH.u." + g
 			e.heap0(hn, gv.Sort)
